@@ -123,7 +123,7 @@ CHECKS.update({
         design_ref="DESIGN.md 3.5, 5/C12",
         note="Exhaustive over the stated cell space for the common selection routine; per-interface forwarding of "
              "the options is sampled (>=150 cells per interface in quick).",
-        technique="TLA+ enumeration of the decision table + TLC-judged replay of every cell on the real code",
+        technique="TLA+ enumeration of the decision table + TLC-judged replay of every cell on the real code (one handle and one predicate object reused across cells; library logging alternately at WARNING / DEBUG)",
     ),
 })
 
@@ -141,7 +141,7 @@ CHECKS.update({
         design_ref="DESIGN.md 3.5, 5/C16",
         note="Data-level component (which function a name denotes) is checked against external tools on sampled "
              "contents; xxhash's one-shot xxh128 is the trusted reference for xxh128.",
-        technique="TLA+ model checking of the read loop + replay of every TLC read pattern + independent digests",
+        technique="TLA+ model checking of the read loop + replay of every TLC read pattern + independent digests (single calls and six threads at once)",
     ),
     "C17": dict(
         engine="PathGuard.tla, PathGuard_Eval.tla", category="model_checking",
@@ -170,13 +170,15 @@ CHECKS.update({
              "reopened via absolute and cwd-relative paths, then checked, iterated and written further with the "
              "projected state compared with the specification's and judged by TLC; every version triple around "
              "the running version (incl. two-digit components) is patched into dataset_info.json and load/refuse "
-             "judged by TLC; hypothesis-generated descriptions (Unicode text, nested JSON custom metadata at "
+             "judged by TLC, and datasets REALLY written by processes that call themselves an older / equal / newer "
+             "version (sedpack.__version__ set before sedpack.io is imported) are judged by the same predicate; hypothesis-generated descriptions (Unicode text, nested JSON custom metadata at "
              "dataset / attribute / shard level, every format x compression, algorithm tuples) must be "
              "reconstructed exactly by a fresh open.",
         design_ref="DESIGN.md 5/C20",
         note="Description round-trip over arbitrary text is sampled (derandomized hypothesis), not enumerated.",
         technique="TLA+ model checking (Relocate, version gate) + replay of TLC behaviours with real moves + "
-                  "TLC-judged version triples + property-based description round-trips",
+                  "TLC-judged version triples (hand-edited and really written by other versions) + property-based "
+                  "description round-trips",
     ),
 })
 
@@ -197,7 +199,7 @@ CHECKS.update({
         design_ref="DESIGN.md 3.3, 4.4, 5/C15",
         note="Trusted: std::sync::mpsc, thread spawn/join, the gate mechanism of the harness. Task start-up is "
              "asynchronous (not gate-controlled); completion order, next() and drop are controlled.",
-        technique="TLA+ model checking (+ TLAPS proof of Order for all constants) + completion-order replay into the real Rust code + trace validation",
+        technique="TLA+ model checking (+ TLAPS proof of Order / no silent truncation for all constants) + completion-order replay into the real Rust code (incl. plans with a pausing consumer) + trace validation",
     ),
 })
 
@@ -277,13 +279,14 @@ CHECKS.update({
         design_ref="DESIGN.md 5/C14",
         note="Exact constants are reported, not demanded; the alarm bound is deliberately loose "
              "(4*(shuffle+file_parallelism)+8 shards). Threaded paths are maxima over repeated runs.",
-        technique="TLA+ read-ahead invariants (TLC for small constants, TLAPS proofs for all constants) + pull/yield measurements on the real generators + inotify-observed file opens (during and after the take)",
+        technique="TLA+ read-ahead invariants (TLC for small constants, TLAPS proofs for all constants) + pull/yield measurements on the real generators + inotify-observed file opens (fast and pausing consumers; during and after the take)",
     ),
 })
 
 CHECKS["C18"]["text"] += (" A declaration sweep (every dtype x format, supported or not, with well-typed, fractional, "
-                          "textual, wider-dtype and missing-attribute values) checks that an accepted write keeps the "
-                          "dataset readable; the remaining format/dtype-table defects are listed as known findings.")
+                          "textual, wider-dtype, missing-attribute and extra-attribute values, the odd write being the "
+                          "second or the first write of a shard) checks that an accepted write keeps the dataset "
+                          "readable and a rejected one leaves no trace; the remaining format/dtype-table defects are listed as known findings.")
 CHECKS.update({
     "C01": dict(
         engine="CodecCells.tla, CodecCells_Eval.tla", category="exploration",
